@@ -68,7 +68,9 @@ func verifDumpint32Node(n int32Node, onPath map[interface{}]bool) *VerifNode {
 
 // VerifSnapshot returns a read-only structural dump of the tree. It takes no
 // locks and must only be called while no operation is in flight.
-func (t *Int32Tree) VerifSnapshot() *VerifNode { return verifDumpint32Node(t.root, map[interface{}]bool{}) }
+func (t *Int32Tree) VerifSnapshot() *VerifNode {
+	return verifDumpint32Node(t.root, map[interface{}]bool{})
+}
 
 // VerifOrder returns the order the tree was created with.
 func (t *Int32Tree) VerifOrder() int { return t.order }
@@ -126,7 +128,9 @@ func verifDumpint64Node(n int64Node, onPath map[interface{}]bool) *VerifNode {
 
 // VerifSnapshot returns a read-only structural dump of the tree. It takes no
 // locks and must only be called while no operation is in flight.
-func (t *Int64Tree) VerifSnapshot() *VerifNode { return verifDumpint64Node(t.root, map[interface{}]bool{}) }
+func (t *Int64Tree) VerifSnapshot() *VerifNode {
+	return verifDumpint64Node(t.root, map[interface{}]bool{})
+}
 
 // VerifOrder returns the order the tree was created with.
 func (t *Int64Tree) VerifOrder() int { return t.order }
@@ -184,7 +188,9 @@ func verifDumpuint32Node(n uint32Node, onPath map[interface{}]bool) *VerifNode {
 
 // VerifSnapshot returns a read-only structural dump of the tree. It takes no
 // locks and must only be called while no operation is in flight.
-func (t *Uint32Tree) VerifSnapshot() *VerifNode { return verifDumpuint32Node(t.root, map[interface{}]bool{}) }
+func (t *Uint32Tree) VerifSnapshot() *VerifNode {
+	return verifDumpuint32Node(t.root, map[interface{}]bool{})
+}
 
 // VerifOrder returns the order the tree was created with.
 func (t *Uint32Tree) VerifOrder() int { return t.order }
@@ -242,7 +248,9 @@ func verifDumpuint64Node(n uint64Node, onPath map[interface{}]bool) *VerifNode {
 
 // VerifSnapshot returns a read-only structural dump of the tree. It takes no
 // locks and must only be called while no operation is in flight.
-func (t *Uint64Tree) VerifSnapshot() *VerifNode { return verifDumpuint64Node(t.root, map[interface{}]bool{}) }
+func (t *Uint64Tree) VerifSnapshot() *VerifNode {
+	return verifDumpuint64Node(t.root, map[interface{}]bool{})
+}
 
 // VerifOrder returns the order the tree was created with.
 func (t *Uint64Tree) VerifOrder() int { return t.order }
@@ -300,7 +308,9 @@ func verifDumpstringNode(n stringNode, onPath map[interface{}]bool) *VerifNode {
 
 // VerifSnapshot returns a read-only structural dump of the tree. It takes no
 // locks and must only be called while no operation is in flight.
-func (t *StringTree) VerifSnapshot() *VerifNode { return verifDumpstringNode(t.root, map[interface{}]bool{}) }
+func (t *StringTree) VerifSnapshot() *VerifNode {
+	return verifDumpstringNode(t.root, map[interface{}]bool{})
+}
 
 // VerifOrder returns the order the tree was created with.
 func (t *StringTree) VerifOrder() int { return t.order }
@@ -358,7 +368,9 @@ func verifDumpcomparableNode(n comparableNode, onPath map[interface{}]bool) *Ver
 
 // VerifSnapshot returns a read-only structural dump of the tree. It takes no
 // locks and must only be called while no operation is in flight.
-func (t *ComparableTree) VerifSnapshot() *VerifNode { return verifDumpcomparableNode(t.root, map[interface{}]bool{}) }
+func (t *ComparableTree) VerifSnapshot() *VerifNode {
+	return verifDumpcomparableNode(t.root, map[interface{}]bool{})
+}
 
 // VerifOrder returns the order the tree was created with.
 func (t *ComparableTree) VerifOrder() int { return t.order }
